@@ -141,6 +141,27 @@ def validate(ctx, quick_zones=14, quick_syn=12):
         reqs.append("tzgen.range.fromutc %s %s" % (hdr, Z.ilist(ups))); exp.append("ok " + " ".join(impl_fromutc(z, u) for u in ups)); meta.append((name, ups))
         abbrs = "%s %s" % (_name(z._std_abbr or ""), _name(z._dst_abbr or ""))
         reqs.append("tzgen.range.wall %s %s %s" % (hdr, Z.ilist(wps), abbrs)); exp.append("ok " + " ".join(impl_range_wall(z, w) for w in wps)); meta.append((name, wps))
+    # `_tzinfo._fromutc/_fold_status/fromutc` through tzlocal (which overrides is_ambiguous: dynamic dispatch)
+    import os, time
+    for s in Z.LOCAL_TZS[:3]:
+        from dateutil import tz
+        ref = tz.tzstr(s)
+        years = Z.YEARS[1:]
+        std, dst, has, tbl = Z.range_zone_params(ref, range(min(years) - 1, max(years) + 2))
+        ups, _ = Z.range_probes(ref, years)
+        ups = spread(ups[::6] if not thorough else ups, rng)
+        old = os.environ.get("TZ")
+        os.environ["TZ"] = s; time.tzset()
+        try:
+            zl = tz.tzlocal()
+            e = "ok " + " ".join(impl_fromutc(zl, u) for u in ups)
+        finally:
+            if old is None:
+                os.environ.pop("TZ", None)
+            else:
+                os.environ["TZ"] = old
+            time.tzset()
+        reqs.append("tzgen.local.fromutc %d %d %d %s %s" % (std, dst, has, Z.ilist(tbl), Z.ilist(ups))); exp.append(e); meta.append(("tzlocal:" + s, ups))
     got = ctx.driver(reqs)
     n = 0
     for q, e, g, (name, pts) in zip(reqs, exp, got, meta):
